@@ -16,6 +16,8 @@ Static clauses:
   (forms)  a Redeemer built by a generic builder whose tag is a parameter is judged per caller (builder and index closure
            inlined); a searched list that is a field of a crate type is sorted by construction when every aggregate of the type
            wraps a list with a dominating ledger-order sort and the field is never mutably borrowed / assigned elsewhere
+  (sorts)  explicit comparators are read (`a.f.cmp(&b.f).then_with(|| a.g.cmp(&b.g))`: same field, first parameter first,
+           ledger-ordered types); a list captured by a closure is judged where the closure is created
 Not decided: equality of redeemer data with the template expression (C09/C01); that the ledger's canonical order is
 (txid, index) / bytewise policy / reward-account order (domain fact, trusted).
 """
